@@ -288,6 +288,10 @@ def _run_inst(cfg):
     try:
         op = spec.build(o)
     except Exception as e:
+        if o.get('rejected') and isinstance(e, (ValueError, TypeError)):
+            # an option set the constructor documents as rejected: a clean refusal is the
+            # specified behaviour (if it ever builds, everything below applies to it)
+            return {'evals': 1, 'sig': 'refused-as-documented'}
         return {'evals': 1, 'sig': 'build-raises',
                 'viol': [{'site': '%s[%s]' % (spec.name, _optstr(o)),
                           'symptom': 'construction_raises:' + type(e).__name__,
